@@ -175,13 +175,12 @@ where
             return Err(RadioError::InvalidBandwidthForFrequency);
         }
 
-        // Section 4.1.1.5 and 4.1.1.6
-        let bw_in_hz = u32::from(bandwidth);
-        let symbol_duration = 1000 / (bw_in_hz / (0x01u32 << spreading_factor_value(spreading_factor)?));
-        let mut low_data_rate_optimize = 0x00u8;
-        if symbol_duration > 16 {
-            low_data_rate_optimize = 0x01u8
-        }
+        // Section 4.1.1.5 and 4.1.1.6: LowDataRateOptimize is mandated when the symbol
+        // time reaches 16.38 ms. The previous integer form 1000 / (bw / 2^sf) > 16
+        // truncated twice and left it off exactly on the boundary (SF11/125 kHz,
+        // SF12/250 kHz, SF10/62.5 kHz: 16.384 ms); use the airtime calculator's rule
+        let low_data_rate_optimize =
+            lora_modulation::BaseBandModulationParams::new(spreading_factor, bandwidth, coding_rate).ldro as u8;
 
         Ok(ModulationParams {
             spreading_factor,
